@@ -756,8 +756,12 @@ func writeEvidence(root string, prop Property, tier string, base uint64, agg *wo
 	if err != nil {
 		return err
 	}
-	os.MkdirAll(filepath.Join(root, "evidence"), 0755)
-	return os.WriteFile(filepath.Join(root, "evidence", prop.ID()+".json"), b, 0644)
+	dir := filepath.Join(root, "evidence")
+	if e := os.Getenv("VERIF_EVIDENCE_DIR"); e != "" {
+		dir = e // runs against modified copies of the repository (tools/) keep their evidence to themselves
+	}
+	os.MkdirAll(dir, 0755)
+	return os.WriteFile(filepath.Join(dir, prop.ID()+".json"), b, 0644)
 }
 
 func main() {
